@@ -95,6 +95,19 @@ def check_toolong(c):
         expect_raise(devs, "toolong.flow", T.FlowLabelTlv, v)
     if c["type"] == 2:
         expect_raise(devs, "toolong.msg", T.MessageToUserTlv, v)
+    if c["type"] == 1:
+        # a filestore response whose parts fit one by one but not together (names <= 255 octets, names + message > 255) is refused when
+        # packed; once the caller supplies a message that fits, the same object packs to the reference layout
+        a = 100 + c["fill"] % 100
+        msg_long = bytes([c["fill"]]) * (255 - a)
+        x = T.FileStoreResponseTlv(T.FilestoreActionCode(0), T.FilestoreResponseStatusCode(0), "n" * a, "", CfdpLv(msg_long))
+        expect_raise(devs, "toolong.fsresp_sum_of_parts", x.pack)
+        expect_raise(devs, "toolong.fsresp_sum_of_parts.again", lambda: x.value)
+        msg_ok = msg_long[: 255 - a - 3 - (c["n"] % 7)]
+        x.filestore_msg = CfdpLv(msg_ok)
+        d = {"t": "fsresp", "action": 0, "status": 0, "n1": "n" * a, "n2": "", "msg": msg_ok.hex()}
+        eq(devs, "toolong.fsresp_pack_after_refusal_and_shorter_message", bytes(x.pack()), R.tlv_bytes(d))
+        eq(devs, "toolong.fsresp_packet_len_after_refusal", x.packet_len, len(R.tlv_bytes(d)))
     return devs
 
 
